@@ -51,6 +51,23 @@ class Method:
         self.attr = attr
 
 
+class PartialVal:
+    """functools.partial(f, *args, **kwargs)"""
+
+    def __init__(self, fn, args, kwargs):
+        self.fn, self.args, self.kwargs = fn, args, kwargs
+
+    def pyvc_call(self, ex, st, args, kwargs, node, prims):
+        return prims.call(ex, st, self.fn, self.args + list(args), {**self.kwargs, **kwargs}, node)
+
+
+class Raised:
+    """Result of a modelled call that raises (the statement executor turns it into a RAISE signal)."""
+
+    def __init__(self, exc):
+        self.exc = exc
+
+
 class Closure:
     def __init__(self, node, env):
         self.node = node
@@ -66,6 +83,24 @@ class Opaque:
 
     def __repr__(self):
         return f"<opaque {self.what}>"
+
+    # an opaque value is inert: parts of it are opaque, predicates on it are unknown booleans
+    def pyvc_getitem(self, ex, st, idx, node, prims):
+        return Opaque(self.what + "[...]")
+
+    def pyvc_getattr(self, ex, st, attr, node, prims):
+        if attr in self.attrs:
+            return self.attrs[attr]
+        return Method(self, attr)
+
+    def pyvc_method(self, ex, st, attr, args, kwargs, node, prims):
+        return Opaque(f"{self.what}.{attr}()")
+
+    def pyvc_compare(self, ex, st, op, other, flip, node, prims):
+        return z3.Bool(f"opq!{fresh('o').decl().name()}")
+
+    def pyvc_binop(self, ex, st, op, other, flip, node, prims):
+        return Opaque(self.what + "-op")
 
 
 BUILTINS = {"len", "abs", "sum", "tuple", "list", "zip", "enumerate", "range", "min", "max", "int", "bool", "isinstance", "sorted", "set", "dict", "all", "any", "print", "float", "str", "hasattr", "callable", "getattr", "type", "map", "reversed", "slice"}
@@ -98,6 +133,11 @@ def module_env_from_ast(tree):
                     env[n.targets[0].id] = n.value.value
                 elif isinstance(n.value, ast.UnaryOp) and isinstance(n.value.op, ast.USub) and isinstance(n.value.operand, ast.Constant):
                     env[n.targets[0].id] = -n.value.operand.value
+                elif isinstance(n.value, ast.Call) and n.targets[0].id.isupper():
+                    # module-level feature flags (HAS_NUMBAGG = module_available(...)): an unknown but fixed boolean
+                    o = Opaque("flag:" + n.targets[0].id)
+                    o.truth = z3.Bool("flag_" + n.targets[0].id)
+                    env[n.targets[0].id] = o
     return env
 
 
@@ -128,7 +168,10 @@ class Prims:
         if node.id in st.vars:
             return [(st, st.vars[node.id])]
         if node.id in ex.module_env:
-            return [(st, ex.module_env[node.id])]
+            v = ex.module_env[node.id]
+            if isinstance(v, ModRef) and v.path.endswith("TYPE_CHECKING"):
+                v = False
+            return [(st, v)]
         if node.id in BUILTINS:
             return [(st, ModRef("builtins." + node.id))]
         if node.id in ("True", "False", "None"):
@@ -142,6 +185,9 @@ class Prims:
         for e in node.elts:
             if isinstance(e, ast.Starred):
                 v = self.eval1(ex, e.value, st)
+                if isinstance(v, Opaque) or hasattr(v, "pyvc_getattr"):
+                    vals.append(Opaque("starred", of=v))
+                    continue
                 if not isinstance(v, (tuple, list)):
                     raise Unsupported("starred symbolic sequence")
                 vals.extend(v)
@@ -168,6 +214,11 @@ class Prims:
 
     def e_Lambda(self, ex, node, st):
         return [(st, Closure(node, dict(st.vars)))]
+
+    def e_NamedExpr(self, ex, node, st):
+        v = self.eval1(ex, node.value, st)
+        ex.assign(node.target, v, st)
+        return [(st, v)]
 
     def e_IfExp(self, ex, node, st):
         out = []
@@ -202,9 +253,13 @@ class Prims:
             if isinstance(v, SSeq):
                 return [(st, v.map(lambda x: -x))]
             return [(st, -v)]
+        if hasattr(v, "pyvc_binop") and isinstance(node.op, (ast.Invert, ast.USub)):
+            return [(st, v.pyvc_binop(ex, st, node.op, None, False, node, self))]
         if isinstance(node.op, ast.Invert):
             if isinstance(v, SSeq) and v.elem_sort == B:
                 return [(st, v.map(lambda x: z3.Not(x), B))]
+            if isinstance(v, z3.BoolRef):
+                return [(st, z3.Not(v))]
         raise Unsupported(f"unary {type(node.op).__name__}")
 
     def e_BoolOp(self, ex, node, st):
@@ -218,6 +273,11 @@ class Prims:
             for c in conds:
                 sub.assume(c)
             v = self.eval1(ex, vnode, sub)
+            for nm, val in sub.vars.items():  # bindings made by := inside the operand are visible afterwards
+                if st.vars.get(nm, None) is not val:
+                    st.vars[nm] = val
+            if hasattr(v, "truth") and not is_sym(v):
+                v = v.truth
             if not is_sym(v) and not isinstance(v, SSeq):
                 truth = bool(v)
                 if is_and and not truth:
@@ -243,6 +303,10 @@ class Prims:
         for op, rnode in zip(node.ops, node.comparators):
             right = self.eval1(ex, rnode, st)
             r = self.compare(ex, st, op, left, right, node)
+            if not isinstance(r, (bool, int)) and not is_sym(r) and not isinstance(r, SSeq):
+                if len(node.ops) != 1:
+                    raise Unsupported("chained comparison of array-like values")
+                return [(st, r)]  # an array-like comparison result
             if not is_sym(r) and not isinstance(r, SSeq):
                 if not r:
                     return [(st, False if acc is None else z3.BoolVal(False))]
@@ -256,6 +320,10 @@ class Prims:
         return [(st, True if acc is None else acc)]
 
     def compare(self, ex, st, op, a, b, node):
+        if not isinstance(op, (ast.Is, ast.IsNot, ast.In, ast.NotIn)):
+            for x, y, flip in ((a, b, False), (b, a, True)):
+                if hasattr(x, "pyvc_compare"):
+                    return x.pyvc_compare(ex, st, op, y, flip, node, self)
         if isinstance(op, (ast.Is, ast.IsNot)):
             if is_sym(a) or is_sym(b) or isinstance(a, SSeq) or isinstance(b, SSeq):
                 # identity with None / sentinels: symbolic values are never None
@@ -269,6 +337,8 @@ class Prims:
                         r = False
                     else:
                         raise Unsupported("identity comparison of symbolic values")
+            elif isinstance(a, ModRef) and isinstance(b, ModRef):
+                r = a.path == b.path
             else:
                 r = a is b
             return r if isinstance(op, ast.Is) else (not r)
@@ -279,6 +349,14 @@ class Prims:
             return r
         if isinstance(a, SSeq) or isinstance(b, SSeq):
             f = {ast.Eq: lambda x, y: x == y, ast.NotEq: lambda x, y: x != y, ast.Lt: lambda x, y: x < y, ast.LtE: lambda x, y: x <= y, ast.Gt: lambda x, y: x > y, ast.GtE: lambda x, y: x >= y}[type(op)]
+            from . import valsort as V
+
+            def is_val(t):
+                return (isinstance(t, SSeq) and t.elem_sort == V.Val) or (is_sym(t) and t.sort() == V.Val)
+
+            if is_val(a) or is_val(b):
+                # IEEE comparisons on extended reals: anything compared with NaN is false (!= is true)
+                f = {ast.Eq: V.v_eq, ast.NotEq: lambda x, y: z3.Not(V.v_eq(x, y)), ast.Lt: V.v_lt, ast.LtE: V.v_le, ast.Gt: lambda x, y: V.v_lt(y, x), ast.GtE: lambda x, y: V.v_le(y, x)}[type(op)]
             if isinstance(a, SSeq) and isinstance(b, SSeq):
                 if a.kind in ("tuple", "list") and b.kind in ("tuple", "list") and isinstance(op, (ast.Eq, ast.NotEq)):
                     k = fresh("i")
@@ -287,8 +365,8 @@ class Prims:
                 ex.oblige(st, a.length == b.length, ex._name("broadcast", node), f"line {node.lineno}: elementwise comparison needs equal lengths: {ex.src(node)}")
                 return a.zipwith(b, f, B)
             if isinstance(a, SSeq):
-                return a.map(lambda x: f(x, to_z3(b)), B)
-            return b.map(lambda y: f(to_z3(a), y), B)
+                return a.map(lambda x: f(x, to_z3(b) if not isinstance(b, float) else b), B)
+            return b.map(lambda y: f(to_z3(a) if not isinstance(a, float) else a, y), B)
         if is_sym(a) or is_sym(b):
             a_, b_ = (to_z3(a) if not isinstance(a, str) else z3.StringVal(a)), (to_z3(b) if not isinstance(b, str) else z3.StringVal(b))
             if (z3.is_string(a_) != z3.is_string(b_)) or (isinstance(a_, z3.BoolRef) != isinstance(b_, z3.BoolRef) and not z3.is_arith(a_)):
@@ -329,6 +407,11 @@ class Prims:
         return [(st, self.binop(ex, st, node.op, a, b, node))]
 
     def binop(self, ex, st, op, a, b, node):
+        for x, y, flip in ((a, b, False), (b, a, True)):
+            if hasattr(x, "pyvc_binop"):
+                return x.pyvc_binop(ex, st, op, y, flip, node, self)
+        if isinstance(a, (tuple, list)) and isinstance(b, SSeq) and b.kind == "tuple" and isinstance(op, ast.Add):
+            return Opaque("tuple-concat")
         if isinstance(a, (tuple, list)) and isinstance(b, (tuple, list)) and isinstance(op, ast.Add):
             return a + b
         if isinstance(a, (tuple, list)) and isinstance(b, int) and not is_sym(b) and isinstance(op, ast.Mult):
@@ -392,6 +475,10 @@ class Prims:
         return [(st, self.getattr(ex, st, base, node.attr, node))]
 
     def getattr(self, ex, st, base, attr, node):
+        if hasattr(base, "pyvc_getattr"):
+            return base.pyvc_getattr(ex, st, attr, node, self)
+        if isinstance(base, RepoFunc):
+            return ModRef(f"flox.core.{base.name}.{attr}")  # class attribute / enum member
         if isinstance(base, ModRef):
             if base.path == "numpy" and attr == "nan":
                 return NAN_R
@@ -403,6 +490,8 @@ class Prims:
                 return (base.length,)
             if attr == "ndim":
                 return 1
+            if attr == "dtype":
+                return Record("dtype", kind={"Int": "i", "Real": "f", "Bool": "b"}.get(str(base.elem_sort), "f"))
             return Method(base, attr)
         if isinstance(base, (list, tuple, dict, set, str)):
             return Method(base, attr)
@@ -441,6 +530,8 @@ class Prims:
         return z3.If(i < 0, i + n, i)
 
     def getitem(self, ex, st, base, idx, node):
+        if hasattr(base, "pyvc_getitem"):
+            return base.pyvc_getitem(ex, st, idx, node, self)
         if isinstance(base, SSeq):
             if isinstance(idx, SSeq):
                 if idx.elem_sort == B:
@@ -456,6 +547,9 @@ class Prims:
                 return SSeq(idx.length, lambda i: base.fn(z3.If(idx.fn(i) < 0, idx.fn(i) + base.length, idx.fn(i))), kind="array", elem_sort=base.elem_sort)
             if isinstance(idx, tuple) and len(idx) == 1:
                 return self.getitem(ex, st, base, idx[0], node)
+            if isinstance(idx, list):
+                elems = [base.fn(self.norm_index(ex, st, base, j, node)) for j in idx]
+                return seq_of_terms(elems, base.elem_sort)
             i = self.norm_index(ex, st, base, idx, node)
             return base.fn(i)
         if isinstance(base, (list, tuple)):
@@ -482,6 +576,8 @@ class Prims:
         raise Unsupported(f"subscript of {type(base).__name__} at line {node.lineno}")
 
     def getslice(self, ex, st, base, lo, hi, node):
+        if hasattr(base, "pyvc_getitem"):
+            return base.pyvc_getitem(ex, st, slice(lo, hi), node, self)
         if isinstance(base, (list, tuple)) and not is_sym(lo) and not is_sym(hi):
             return base[lo:hi]
         if isinstance(base, SSeq):
@@ -501,6 +597,23 @@ class Prims:
         raise Unsupported(f"slice of {type(base).__name__}")
 
     def setitem(self, ex, st, base, idx, value, node):
+        if hasattr(base, "pyvc_setitem"):
+            return base.pyvc_setitem(ex, st, idx, value, node, self)
+        if isinstance(base, SSeq):
+            if isinstance(idx, tuple) and len(idx) == 1:
+                idx = idx[0]
+            if isinstance(idx, SSeq) and idx.elem_sort == B:
+                # masked store  x[mask] = v  (value semantics: the variable is re-bound to the updated array)
+                ex.oblige(st, idx.length == base.length, ex._name("broadcast", node), f"line {node.lineno}: boolean mask has the length of the array")
+                if isinstance(value, SSeq):
+                    raise Unsupported("masked store of an array value")
+                v = to_z3(value) if not (isinstance(value, float)) else value
+                if base.elem_sort != I and not is_sym(v):
+                    from . import valsort as V
+
+                    v = V.as_val(value)
+                return SSeq(base.length, lambda i: z3.If(idx.fn(i), v, base.fn(i)), kind=base.kind, elem_sort=base.elem_sort, name=base.name)
+            raise Unsupported("store into a symbolic sequence other than through a boolean mask")
         if isinstance(base, dict):
             d = dict(base)
             d[idx] = value
@@ -514,10 +627,12 @@ class Prims:
         raise Unsupported(f"subscript store into {type(base).__name__}")
 
     def e_ListComp(self, ex, node, st):
-        return [(st, list(self.comprehension(ex, node, st)))]
+        r = self.comprehension(ex, node, st)
+        return [(st, r if isinstance(r, (SSeq, Opaque)) else list(r))]
 
     def e_GeneratorExp(self, ex, node, st):
-        return [(st, list(self.comprehension(ex, node, st)))]
+        r = self.comprehension(ex, node, st)
+        return [(st, r if isinstance(r, (SSeq, Opaque)) else list(r))]
 
     def comprehension(self, ex, node, st):
         if len(node.generators) != 1:
@@ -528,6 +643,19 @@ class Prims:
             it = it.concrete_items()
         if isinstance(it, dict):
             it = list(it)
+        if isinstance(it, SSeq):
+            if g.ifs:
+                raise Unsupported("filtered comprehension over a symbolic-length sequence")
+            k = fresh("ck")
+            s2 = st.fork()
+            s2.assume(in_range(k, 0, it.length))
+            ex.assign(g.target, it.at(k), s2)
+            elt = self.eval1(ex, node.elt, s2)
+            if is_sym(elt):
+                return SSeq(it.length, lambda i, elt=elt, k=k: z3.substitute(elt, (k, i)), kind="list", elem_sort=elt.sort())
+            return Opaque("list-of-objects", length=it.length)
+        if isinstance(it, Opaque):
+            return Opaque("list-of-objects")
         if not isinstance(it, (list, tuple, range)):
             raise Unsupported("comprehension over a symbolic-length sequence")
         out = []
@@ -581,9 +709,15 @@ class Prims:
             c = ex.callees.get(fn.name)
             if c is None:
                 raise Unsupported(f"call of in-repo function {fn.name} without a contract (line {node.lineno})")
-            return [(st, c(ex, st, args, kwargs, node))]
+            r = c(ex, st, args, kwargs, node)
+            if isinstance(r, list) and r and isinstance(r[0], tuple) and len(r[0]) == 2 and hasattr(r[0][0], "pc"):
+                return r
+            return [(st, r)]
         if isinstance(fn, Closure):
             return [(st, self.call_closure(ex, st, fn, args, kwargs, node))]
+        if hasattr(fn, "pyvc_call"):
+            r = fn.pyvc_call(ex, st, args, kwargs, node, self)
+            return r if isinstance(r, list) else [(st, r)]
         if isinstance(fn, tuple) and fn and fn[0] == "localfunc":
             return self.call_local(ex, st, fn[1], args, kwargs, node)
         raise Unsupported(f"call of {type(fn).__name__} at line {node.lineno}")
@@ -614,6 +748,8 @@ class Prims:
         return self.eval1(ex, fn.node.body, s)
 
     def method(self, ex, st, obj, attr, args, kwargs, node):
+        if hasattr(obj, "pyvc_method"):
+            return obj.pyvc_method(ex, st, attr, args, kwargs, node, self)
         if isinstance(obj, SSeq):
             if attr == "all":
                 k = fresh("i")
@@ -685,19 +821,21 @@ class Prims:
         R("builtins.len", self.m_len)
         R("builtins.abs", lambda ex, st, a, k, n: z3.If(to_z3(a[0]) >= 0, to_z3(a[0]), -to_z3(a[0])) if is_sym(a[0]) else abs(a[0]))
         R("builtins.sum", self.m_sum)
-        R("builtins.tuple", lambda ex, st, a, k, n: (retag(a[0], "tuple") if isinstance(a[0], SSeq) else tuple(a[0])) if a else ())
-        R("builtins.list", lambda ex, st, a, k, n: (retag(a[0], "list") if isinstance(a[0], SSeq) else list(a[0])) if a else [])
+        R("builtins.tuple", lambda ex, st, a, k, n: (retag(a[0], "tuple") if isinstance(a[0], SSeq) else (a[0] if isinstance(a[0], Opaque) else tuple(a[0]))) if a else ())
+        R("builtins.list", lambda ex, st, a, k, n: (retag(a[0], "list") if isinstance(a[0], SSeq) else (a[0] if isinstance(a[0], Opaque) else list(a[0]))) if a else [])
+        R("builtins.map", lambda ex, st, a, k, n: Opaque("map-object"))
+        R("functools.partial", lambda ex, st, a, k, n: PartialVal(a[0], list(a[1:]), dict(k)))
         R("builtins.zip", lambda ex, st, a, k, n: ZipIter(list(a)))
-        R("builtins.enumerate", lambda ex, st, a, k, n: EnumIter(a[0]) if isinstance(a[0], SSeq) else list(enumerate(a[0])))
+        R("builtins.enumerate", lambda ex, st, a, k, n: EnumIter(a[0]) if isinstance(a[0], SSeq) else list(enumerate(a[0].concrete_items() if isinstance(a[0], ZipIter) else a[0])))
         R("builtins.range", self.m_range)
         R("builtins.int", lambda ex, st, a, k, n: a[0])
         R("builtins.bool", lambda ex, st, a, k, n: zbool(a[0]) if is_sym(a[0]) or isinstance(a[0], SSeq) else bool(a[0]))
         R("builtins.isinstance", self.m_isinstance)
         R("builtins.max", self.m_max)
         R("builtins.min", self.m_min)
-        R("builtins.all", lambda ex, st, a, k, n: z3.And([zbool(x) for x in a[0]]) if any(is_sym(x) for x in a[0]) else all(a[0]))
-        R("builtins.any", lambda ex, st, a, k, n: z3.Or([zbool(x) for x in a[0]]) if any(is_sym(x) for x in a[0]) else any(a[0]))
-        R("builtins.sorted", lambda ex, st, a, k, n: sorted(a[0]))
+        R("builtins.all", self.m_all)
+        R("builtins.any", self.m_any)
+        R("builtins.sorted", lambda ex, st, a, k, n: a[0] if isinstance(a[0], (SSeq, Opaque)) else sorted(a[0]))  # order of a symbolic sequence is immaterial at this level
         R("builtins.dict", lambda ex, st, a, k, n: dict(*a, **k))
         R("builtins.set", lambda ex, st, a, k, n: GhostSet.empty() if not a else set(a[0]))
         R("numpy.cumsum", self.m_cumsum)
@@ -711,10 +849,30 @@ class Prims:
         R("numpy.all", lambda ex, st, a, k, n: self.method(ex, st, a[0], "all", [], {}, n))
         R("numpy.median", self.m_opaque_int("numpy.median"))
         R("math.prod", self.m_prod)
+        R("typing.cast", lambda ex, st, a, k, n: a[1])  # dropped by extraction: cast(T, x) -> x
+        R("numpy.concatenate", lambda ex, st, a, k, n: seq_concat(a[0][0], a[0][1]) if len(a[0]) == 2 else (_ for _ in ()).throw(Unsupported("concatenate of other than two arrays")))
+        R("numpy.zeros_like", lambda ex, st, a, k, n: SSeq(a[0].length, lambda i: z3.IntVal(0), kind="array"))
+        R("numpy.digitize", self.m_digitize)
         R("numpy.sqrt", lambda ex, st, a, k, n: SQRT(coerce(a[0], z3.RealVal(0))[0]))
         R("numpy.errstate", lambda ex, st, a, k, n: None)
         R("math.ceil", lambda ex, st, a, k, n: a[0] if isinstance(a[0], int) else math.ceil(a[0]) if not is_sym(a[0]) else a[0])
         R("numpy_groupies.aggregate_numpy.aggregate", self.m_npg_aggregate)
+
+    def m_all(self, ex, st, a, k, node):
+        x = a[0]
+        if isinstance(x, Opaque):
+            return z3.Bool(f"all!{fresh('a').decl().name()}")
+        if isinstance(x, SSeq):
+            return self.method(ex, st, x, "all", [], {}, node)
+        return z3.And([zbool(v) for v in x]) if any(is_sym(v) or hasattr(v, "truth") for v in x) else all(x)
+
+    def m_any(self, ex, st, a, k, node):
+        x = a[0]
+        if isinstance(x, Opaque):
+            return z3.Bool(f"any!{fresh('a').decl().name()}")
+        if isinstance(x, SSeq):
+            return self.method(ex, st, x, "any", [], {}, node)
+        return z3.Or([zbool(v) for v in x]) if any(is_sym(v) or hasattr(v, "truth") for v in x) else any(x)
 
     def m_opaque_int(self, name):
         def f(ex, st, a, k, n):
@@ -831,6 +989,28 @@ class Prims:
             return x.map(lambda v: self.contains(ex, st, test, v), B)
         raise Unsupported("isin on a concrete sequence")
 
+    def m_digitize(self, ex, st, a, k, node):
+        """np.digitize(x, bins, right) for increasing real bins and extended-real x (ASSUMED contract):
+        d = number of bins below x  (bins[j] <= x, or bins[j] < x when right=True); NaN sorts after every bin."""
+        from . import valsort as V
+
+        x = a[0]
+        bins = k.get("bins", a[1] if len(a) > 1 else None)
+        right = k.get("right", False)
+        nb = bins.length
+        j, i = fresh("j"), fresh("i")
+        ex.oblige(st, forall(j, z3.Implies(in_range(j, 0, nb - 1), bins.at(j) < bins.at(j + 1))), ex._name("digitize", node), f"line {node.lineno}: np.digitize is given monotonically increasing bins")
+        # name the bins by an array constant so that the axioms below have if-free triggers
+        barr = z3.Const(f"bins!{fresh('b').decl().name()}", z3.ArraySort(I, bins.elem_sort))
+        st.assume(forall(j, z3.Implies(in_range(j, 0, nb), z3.Select(barr, j) == bins.at(j)), patterns=[z3.Select(barr, j)]))
+        bins = SSeq(nb, lambda t, barr=barr: z3.Select(barr, t), kind="array", elem_sort=bins.elem_sort, name="bins")
+        D = z3.Function(f"digitize!{fresh('d').decl().name()}", I, I)
+        below = (lambda b, xv: V.v_lt(b, xv)) if right is True else ((lambda b, xv: V.v_le(b, xv)) if right is False else (lambda b, xv: z3.If(right, V.v_lt(b, xv), V.v_le(b, xv))))
+        st.assume(forall(i, z3.Implies(in_range(i, 0, x.length), z3.And(D(i) >= 0, D(i) <= nb)), patterns=[D(i)]))
+        st.assume(forall(i, z3.Implies(z3.And(in_range(i, 0, x.length), V.is_nan(x.at(i))), D(i) == nb), patterns=[D(i)]))
+        st.assume(z3.ForAll([i, j], z3.Implies(z3.And(in_range(i, 0, x.length), in_range(j, 0, nb), z3.Not(V.is_nan(x.at(i)))), (j < D(i)) == below(bins.at(j), x.at(i))), patterns=[z3.MultiPattern(D(i), bins.at(j))]))
+        return SSeq(x.length, lambda t: D(t), kind="array", name="digitized")
+
     def m_npg_aggregate(self, ex, st, a, k, node):
         """numpy_groupies.aggregate(labels, arange(n), func='first'|'last'): index of the first / last occurrence of
         every label (ASSUMED contract; labels non-negative)."""
@@ -890,6 +1070,18 @@ def seq_of(values, kind="tuple"):
     return SSeq(z3.IntVal(n), fn, kind=kind)
 
 
+def seq_of_terms(terms, sort):
+    n = len(terms)
+
+    def fn(i):
+        out = terms[-1]
+        for j in range(n - 2, -1, -1):
+            out = z3.If(i == j, terms[j], out)
+        return out
+
+    return SSeq(z3.IntVal(n), fn, kind="array", elem_sort=sort)
+
+
 def seq_concat(a, b):
     return SSeq(a.length + b.length, lambda i: z3.If(i < a.length, a.fn(i), b.fn(i - a.length)), kind=a.kind, elem_sort=a.elem_sort)
 
@@ -936,7 +1128,7 @@ def psum(ex, st, seq):
 
 def seq_max(ex, st, seq, node):
     ex.oblige(st, seq.length >= 1, ex._name("max", node), f"line {node.lineno}: max() of a non-empty sequence")
-    m = fresh("max")
+    m = fresh("max", seq.elem_sort)
     k = fresh("i")
     w = fresh("w")
     st.assume(forall(k, z3.Implies(in_range(k, 0, seq.length), seq.at(k) <= m)))
